@@ -358,6 +358,12 @@ def program_stream(seed, tier, shard=0, nshards=1, want=('fixed', 'special', 'ge
         for n, s in [('special-eval-1', "f(\n1) + (lambda a, *b, c=1: a)(1)"), ('special-eval-2', "x" + NL * 0 + " if y else (1e999-1e999, -0.0, 'a', b'a')"),
                      ('special-single-1', "x = 1\n"), ('special-single-2', "if x:\n    y = [i for i in z]\n\n")]:
             items.append((n, s, ('eval', 'single', 'exec'), (0, 2)))
+    if 'stdlib' in want and (3, 8) <= V <= (3, 9):
+        # the one stdlib module whose co_lnotab has an entry inside a multi-unit instruction (known finding of C01)
+        f = os.path.join(os.path.dirname(os.__file__), 'test', 'support', '__init__.py')
+        if os.path.exists(f):
+            with open(f, 'rb') as fh:
+                items.append(('stdlib-test/support/__init__.py', fh.read(), ('exec',), (0,)))
     if 'gen' in want:
         for n, s in generated_sources(seed, 150 if quick else 3000):
             items.append((n, s, ('exec',) if quick else ('exec', 'single'), (0,) if quick else (0, 1, 2)))
